@@ -4,10 +4,10 @@
    DataRow::~DataRow / DataTable::pvDeallocateFreeRaws / pvAllocateRaw / pvDestroyRaws on every run and whose extracted
    code is replayed against event traces of the real DataTable. *)
 From Coq Require Import List Arith Bool Permutation.
-From C19 Require Import Treiber TreiberInv TreiberThms TreiberRace TreiberLive TreiberVariant TreiberExact TreiberBoundary TreiberRows TreiberTables FreeListRefine PoolAssumptions TreiberExamples.
+From C19 Require Import Treiber TreiberInv TreiberThms TreiberRace TreiberLive TreiberVariant TreiberExact TreiberBoundary TreiberRows TreiberTables FreeListRefine PoolAssumptions RawPoolSize FreeListSteps TreiberCreate TreiberExamples.
 From Coq Require Import ZArith.
 From MomoCommon Require Import GenPrelude.
-From C19 Require FreeListPrims Gen_DataRow Gen_FreeListOwner.
+From C19 Require FreeListPrims Gen_DataRow Gen_FreeListOwner Gen_MemPoolConst Gen_RawPool.
 Import ListNotations.
 
 (* The 16-clause invariant holds in every state reachable under ANY schedule. *)
@@ -425,6 +425,134 @@ Print Assumptions C19_alloc_enabled_under_pool_assumption.
 Theorem C19_pool_assumption_satisfiable : forall out, ~ In (next_block out) out.
 Proof. exact next_block_fresh. Qed.
 Print Assumptions C19_pool_assumption_satisfiable.
+
+(* ---- A_size discharged: for EVERY column list (total row size below 2^48), every pool alignment and block count, the block that
+   DataTable::pvCreateRawMemPool + MemPoolParams' CorrectBlockSize (both regenerated from the headers) give the raw pool holds the
+   row AND the 8-byte link word ~DataRow writes *)
+Theorem C19_raw_block_holds_link_word :
+  forall total al C, (0 <= total < 2 ^ 48)%Z -> (1 <= al <= 1024)%Z ->
+  let block := Gen_MemPoolConst.CorrectBlockSize (Gen_RawPool.pvCreateRawMemPool total) al C in
+  (8 <= block)%Z /\ (total <= block)%Z.
+Proof. exact raw_block_holds_link_word. Qed.
+Print Assumptions C19_raw_block_holds_link_word.
+
+(* without the max(totalSize, sizeof(void pointer)) step (wave-2 seed C19-d, mutant M10) a one-byte row gets a block below 8 bytes *)
+Theorem C19_raw_block_without_max_refuted : (Gen_MemPoolConst.CorrectBlockSize 1 1 1 < 8)%Z.
+Proof. exact raw_block_without_max_refuted. Qed.
+Print Assumptions C19_raw_block_without_max_refuted.
+
+(* ---- Interleavings with the GENERATED code as the atomic steps.  The regenerated destructor loop body is, literally (closed by
+   reflexivity), load ; store of the link ; CAS, and the regenerated drain is exchange ; walk ... *)
+Theorem C19_generated_destructor_body_is_three_atomic_pieces :
+  forall sp fuel fr raw mem,
+  Gen_DataRow.destroy_loop0 sp (S fuel) fr raw mem =
+    let h := g_load mem fr in
+    let m1 := g_link mem h raw in
+    let '(ok, _, m2) := g_cas (sp fuel) m1 fr h raw in
+    if ok then Ok m2 else Gen_DataRow.destroy_loop0 sp fuel fr raw m2.
+Proof. exact destructor_body_is_three_atomic_pieces. Qed.
+Print Assumptions C19_generated_destructor_body_is_three_atomic_pieces.
+
+Theorem C19_generated_drain_is_exchange_then_walk :
+  forall crew_head fuel mem pool,
+  Gen_FreeListOwner.pvDeallocateFreeRaws crew_head fuel mem pool =
+    let '(h, m1) := g_exchange mem crew_head 0%Z in
+    match Gen_FreeListOwner.pvDeallocateFreeRaws_loop0 fuel m1 h pool with
+    | Ok (_, pool') => Ok (tt, m1, pool')
+    | Stuck => Stuck | Fuel => Fuel | Exn => Exn
+    end.
+Proof. exact drain_is_exchange_then_walk. Qed.
+Print Assumptions C19_generated_drain_is_exchange_then_walk.
+
+(* ... and every small step of the interleaving machine IS that piece applied to the memory of the state (so every interleaving
+   of any number of destructors with the owner is an interleaving of generated pieces) *)
+Theorem C19_DLoad_is_generated_load :
+  forall s t r s', dpcs s t = Start r -> step s (DLoad t) = Some s' ->
+  exists h, dpcs s' t = Loaded r h /\ encp h = g_load (mem_of s) hd /\ forall a, mem_of s' a = mem_of s a.
+Proof. exact DLoad_is_generated_load. Qed.
+Print Assumptions C19_DLoad_is_generated_load.
+
+Theorem C19_DLink_is_generated_store :
+  forall s t r h s', dpcs s t = Loaded r h -> step s (DLink t) = Some s' ->
+  dpcs s' t = Linked r h /\ forall a, mem_of s' a = g_link (mem_of s) (encp h) (addr r) a.
+Proof. exact DLink_is_generated_store. Qed.
+Print Assumptions C19_DLink_is_generated_store.
+
+Theorem C19_DCas_is_generated_cas :
+  forall s t r h sp s', dpcs s t = Linked r h -> step s (DCas t sp) = Some s' ->
+  let '(ok, _, m') := g_cas sp (mem_of s) hd (encp h) (addr r) in
+  dpcs s' t = (if ok then Idle else Start r) /\ forall a, mem_of s' a = m' a.
+Proof. exact DCas_is_generated_cas. Qed.
+Print Assumptions C19_DCas_is_generated_cas.
+
+Theorem C19_OExchange_is_generated_exchange :
+  forall s s', step s OExchange = Some s' ->
+  exists c, own s' = ODrain c /\ encp c = fst (g_exchange (mem_of s) hd 0%Z) /\
+            forall a, mem_of s' a = snd (g_exchange (mem_of s) hd 0%Z) a.
+Proof. exact OExchange_is_generated_exchange. Qed.
+Print Assumptions C19_OExchange_is_generated_exchange.
+
+Theorem C19_ORead_is_generated_next :
+  forall s r s', own s = ODrain (Some r) -> step s ORead = Some s' ->
+  exists nx, own s' = ONext r nx /\ encp nx = g_next (mem_of s) (addr r).
+Proof. exact ORead_is_generated_next. Qed.
+Print Assumptions C19_ORead_is_generated_next.
+
+(* Linearisability, for EVERY schedule (any number of destructors, the owner, clients): the shared list equals the state of the
+   ATOMIC stack (push ; take-all) after the history of linearisation points -- successful CASes and exchanges in the order they happen *)
+Theorem C19_free_list_is_linearisable :
+  forall ls s s', run s ls = Some s' -> shared s' = fold_left aapply (lin s ls) (shared s).
+Proof. exact free_list_is_linearisable. Qed.
+Print Assumptions C19_free_list_is_linearisable.
+
+Theorem C19_take_all_returns_the_linearised_stack :
+  forall s s', step s OExchange = Some s' -> drain s' = shared s /\ shared s' = [].
+Proof. exact take_all_returns_the_linearised_stack. Qed.
+Print Assumptions C19_take_all_returns_the_linearised_stack.
+
+(* two concurrent pushes and one drain: the late CAS succeeds although the head changed twice (null -> row 1 -> null) *)
+Theorem C19_two_pushes_one_drain_linearised_example :
+  lin init sched_two_pushes_one_drain = [APush 1; ATakeAll; APush 0] /\
+  exists s, run init sched_two_pushes_one_drain = Some s /\ shared s = [0] /\ reclaimed s = [(1, 1)] /\
+            own s = OIdle /\ dpcs s 1 = Idle /\ dpcs s 2 = Idle.
+Proof. exact ex_two_pushes_one_drain_linearised. Qed.
+Print Assumptions C19_two_pushes_one_drain_linearised_example.
+
+(* ---- pvCreateRaw / pvNewRow catch paths: the buffer taken from the pool is invisible until pvMakeRow, and a failed NewRow gives it
+   back to the POOL (not the free list), exactly once, changing nothing else *)
+Theorem C19_pending_buffer_is_private :
+  forall cs r, reachable_c cs -> pending cs = Some r ->
+  status (lbase (cl cs)) r = Free /\ ~ In r (shared (lbase (cl cs))) /\ ~ In r (drain (lbase (cl cs))) /\
+  ~ in_hand (lbase (cl cs)) r /\ (forall o, o_raw (objs (cl cs) o) <> Some r).
+Proof. exact pending_buffer_is_private. Qed.
+Print Assumptions C19_pending_buffer_is_private.
+
+Theorem C19_failed_newrow_returns_buffer_to_pool :
+  forall cs g cs', reachable_c cs -> stepc cs (CAbort g) = Some cs' ->
+  exists r, pending cs = Some r /\ pending cs' = None /\
+    status (lbase (cl cs')) r = Free /\
+    shared (lbase (cl cs')) = shared (lbase (cl cs)) /\ drain (lbase (cl cs')) = drain (lbase (cl cs)) /\
+    head (lbase (cl cs')) = head (lbase (cl cs)) /\
+    disposed (lbase (cl cs')) = disposed (lbase (cl cs)) /\ published (lbase (cl cs')) = published (lbase (cl cs)) /\
+    reclaimed (lbase (cl cs')) = reclaimed (lbase (cl cs)) /\
+    objs (cl cs') = objs (cl cs) /\
+    (forall g', stepc cs' (CAbort g') = None).
+Proof. exact failed_newrow_returns_buffer_to_pool. Qed.
+Print Assumptions C19_failed_newrow_returns_buffer_to_pool.
+
+Theorem C19_successful_newrow_creates_the_row :
+  forall cs o g cs', reachable_c cs -> stepc cs (CMakeRow o g) = Some cs' ->
+  exists r, pending cs = Some r /\ pending cs' = None /\ status (lbase (cl cs')) r = Detached /\
+    o_raw (objs (cl cs') o) = Some r /\ o_fl (objs (cl cs') o) = true.
+Proof. exact successful_newrow_creates_the_row. Qed.
+Print Assumptions C19_successful_newrow_creates_the_row.
+
+Theorem C19_failed_newrow_while_a_destructor_runs_example :
+  exists cs, runc cinit [CL (LNew 0 0 None); CTakeRaw 1; CL (LDestroy 3 0); CL (LB (DLoad 3)); CAbort (Some 7);
+                         CL (LB (DLink 3)); CL (LB (DCas 3 false)); CTakeRaw 1; CMakeRow 1 None] = Some cs /\
+    shared (lbase (cl cs)) = [0] /\ status (lbase (cl cs)) 1 = Detached /\ gen (lbase (cl cs)) 1 = 1 /\ pending cs = None.
+Proof. exact ex_failed_newrow_while_a_destructor_runs. Qed.
+Print Assumptions C19_failed_newrow_while_a_destructor_runs_example.
 
 (* Non-vacuity: a 3-thread schedule with a genuinely failed CAS ... *)
 Theorem C19_nonvacuous_failed_cas :
